@@ -1049,6 +1049,9 @@ def _sat_kind(spec):
     return None
 
 
+COMPOSITECDF_MARGIN = [1e-4]      # C19 raises it to 1e-2: in single precision 1 - u keeps only u32 / (1 - u) relative accuracy
+
+
 def _compositecdf_ok(module, z, inverse=False):
     """CompositeCDFTransform = [squash, cdf, squash^-1]; the final logit clamps at eps=1e-6, so the value entering it
     must stay away from 0/1 (otherwise the declared clamp, not the spline, decides the result)."""
@@ -1056,7 +1059,8 @@ def _compositecdf_ok(module, z, inverse=False):
         sq, cdf = module._transforms[0], module._transforms[1]
         u, _ = sq(z)
         v, _ = cdf.inverse(u) if inverse else cdf(u)
-        return float(v.min()) >= 1e-4 and float(v.max()) <= 1 - 1e-4 and float(u.min()) >= 1e-4 and float(u.max()) <= 1 - 1e-4
+        mg = COMPOSITECDF_MARGIN[0]
+        return float(v.min()) >= mg and float(v.max()) <= 1 - mg and float(u.min()) >= mg and float(u.max()) <= 1 - mg
     except Exception:
         return True
 
